@@ -280,14 +280,26 @@ func init() {
 	registerReplay("TestC07_Deletion", runC07)
 }
 
+// warmSystems sets up the Groth16 systems before rapid starts timing iterations
+// (rapid stops early when an iteration average predicts the deadline is near).
+func warmSystems(t *testing.T, depth, batch int) {
+	for _, m := range []string{"insertion", "deletion"} {
+		if _, err := getSystem(m, depth, batch); err != nil {
+			t.Fatalf("harness: setup %s %dx%d: %v", m, depth, batch, err)
+		}
+	}
+}
+
 func TestC07_Insertion(t *testing.T) {
 	dims := c07Dims()
 	d := dims[Shard()%len(dims) : Shard()%len(dims)+1]
+	warmSystems(t, d[0][0], d[0][1])
 	RunRapid(t, Check[c07Case]{Prop: "C07", Test: "TestC07_Insertion", Gen: genC07("insertion", d), Run: runC07})
 }
 
 func TestC07_Deletion(t *testing.T) {
 	dims := c07Dims()
 	d := dims[Shard()%len(dims) : Shard()%len(dims)+1]
+	warmSystems(t, d[0][0], d[0][1])
 	RunRapid(t, Check[c07Case]{Prop: "C07", Test: "TestC07_Deletion", Gen: genC07("deletion", d), Run: runC07})
 }
